@@ -145,10 +145,24 @@ def run(ctx):
         dealt, n = deal(ctx, tp, chunk)
         log("C16: %d lattice cases (%d emitted), %d events, chunks of %d" % (len(rows), len(cases), n, chunk))
         res = validate_trace(ctx, "TraceCam16", dealt, stateless=True, chunk_events=chunk, tag="c16", xmx="3g")
+        # the forward model against the published equations (Cam16Ref.tla; about a second of TLC per event): a sample of
+        # the conv events, spread evenly over the recording (so over viewing conditions, partial kinds and component types)
+        conv = [ln for ln in open(tp) if '"ev":"conv"' in ln]
+        want = 240 if ctx.quick else 4000
+        step = max(1, len(conv) // want)
+        rp_path = ctx.p("c16ref.ndjson")
+        with open(rp_path, "w") as f:
+            f.writelines(conv[i] for i in range(ctx.seed % step, len(conv), step))
+        res_ref = validate_trace(ctx, "TraceCam16Ref", rp_path, stateless=True, chunk_events=max(8, want // 32), tag="c16ref", xmx="2g")
     finally:
         th.join()
     if "err" in box:
         raise box["err"]
+    ctx.cov["traces_validated_against_impl"] += res_ref.events - len(res_ref.rejected)
+    for (line, ev, info, _) in res_ref.rejected:
+        why = info.strip().strip('"')
+        report(ctx, coords_of(ev, why), describe(ev, why), {"bin": "cam16", "cmd": command_of(ev), "event": ev, "trace_line": line, "spec": "TraceCam16Ref",
+                                                         "how": "./check C16 --replay <this file>"})
     ctx.cov["traces_validated_against_impl"] += res.events - len(res.rejected)
     add_samples(ctx, dealt, n=3, every=max(1, n // 3 - 1))
     ctx.cov["distinct_nontrivial"] += count_distinct(
@@ -168,7 +182,9 @@ def run(ctx):
                               "values at the three precisions used, published attribute definitions imply the parameter-free relations, "
                               "each verdict accepts exact and rejects perturbed events). The harness converts lattice and seeded random "
                               "colours in and around the sRGB gamut (incl. one negative cone response, dark down to 1e-9, 4x white, black, "
-                              "the adopted white) under lattice and random conditions, f32 and f64; TLC judges every event with Cam16.tla.",
+                              "the adopted white) under lattice and random conditions, f32 and f64; TLC judges every event with Cam16.tla, "
+                              "and a sample of the conversions against the published forward model evaluated in fixed point with real "
+                              "powers (Cam16Ref.tla: viewing conditions -> c, F, F_L, n, z, N_bb, D, A_w; XYZ -> J, C, h, Q, M, s).",
                   trusted=["reference constants and formulas of spec/Cam16.tla (Li et al. 2017) and spec/lib/LnExp.tla",
                            "thresholds of spec/Cam16.tla (margins are in coverage.margins of this file)",
                            "the harness' flag w=1 (the colour converted is the adopted white of the conditions)",
@@ -184,7 +200,7 @@ def replay(ctx, path):
     open(cp, "w").write(json.dumps(rp["cmd"]) + "\n")
     tp = ctx.p("replay.ndjson")
     run_bin(bins["cam16"], ["--cmds", cp, "--out", tp])
-    res = validate_trace(ctx, "TraceCam16", tp, stateless=True, tag="replay")
+    res = validate_trace(ctx, rp.get("spec", "TraceCam16"), tp, stateless=True, tag="replay")
     if res.rejected:
         print("VIOLATION property=C16 replay=%s" % path)
         print("  still rejected: %s" % describe(res.rejected[0][1], res.rejected[0][2].strip().strip('"'))[:600])
